@@ -2409,6 +2409,29 @@ class windows_numpy:
                 if not _same(got, ref[a_:b_]):
                     return got, ref[a_:b_]
             return full, ref
+        if op == "scan-widening-dtype":
+            # float32 data scanned in float64: block totals must be accumulated in the requested dtype too
+            f = ((np.arange(9 * 40) * 7919 % 1000) / 7.0).astype("f4")
+            xx = da.from_array(f, chunks=tuple(40 * c for c in chunks))
+            for name in ("cumsum", "nancumsum"):
+                for method in ("sequential", "blelloch"):
+                    got = np.asarray(getattr(da, name)(xx, axis=0, dtype="f8", method=method).compute())
+                    want = getattr(np, name)(f, dtype="f8")
+                    if got.dtype != want.dtype or not np.allclose(got, want, rtol=1e-12, atol=1e-9):
+                        return got, want
+            return np.array(1.0), np.array(1.0)
+        if op == "newaxis-trim":
+            # a block function that adds an axis: the trimmed result has the input's extents on the old axes
+            b2 = np.arange(80.0).reshape(8, 10)
+            y2 = da.from_array(b2, chunks=(4, 5))
+            cases = [(0, lambda v: v[None], b2[None]), (2, lambda v: v[..., None], b2[..., None]), (1, lambda v: v[:, None], b2[:, None])]
+            for na, f, ref in cases:
+                for depth in ({0: 1, 1: 2}, {0: 2, 1: 1}, 1):
+                    r = da.map_overlap(f, y2, depth=depth, boundary="reflect", new_axis=na, dtype=float)
+                    got = np.asarray(r.compute())
+                    if tuple(r.shape) != ref.shape or got.shape != ref.shape or not _same(got, ref):
+                        return got, ref
+            return np.array(1.0), np.array(1.0)
         if op == "diff":
             return np.asarray(da.diff(x, n=min(w, 3)).compute()), np.diff(d, n=min(w, 3))
         if op in ("cumsum", "cumprod"):
@@ -2463,6 +2486,9 @@ class windows_numpy:
                     yield {"op": op, "chunks": c, "w": w}
         for nblk in range(1, 35 if tier == "quick" else 70):
             yield {"op": "scan-blocks", "chunks": (9,), "w": nblk}
+        for c in [(9,), (3, 3, 3), (1, 1, 7), (2, 2, 2, 3), (4, 5)]:
+            yield {"op": "scan-widening-dtype", "chunks": c, "w": 1}
+        yield {"op": "newaxis-trim", "chunks": (9,), "w": 1}
 
 
 # ---------------------------------------------------------------------------
@@ -3183,6 +3209,50 @@ class rechunk_unknown_unchanged_axis:
             for spec in ({1: 3}, {1: -1}, {1: 2}, (None, 3)):
                 for bal in (False, True):
                     yield {"chunks": chunks, "spec": spec, "balance": bal}
+
+
+@contract("dask_array/_rechunk.py::Rechunk._pushdown", spec="planner-arguments-travel", props=["C15", "C14"])
+class rechunk_pushdown_keeps_planner_arguments:
+    """a rechunk that optimisation moves through a transpose / an elementwise op / a concatenate / an expand_dims keeps the
+    threshold, block_size_limit and method the user gave: every rechunk node of the optimised expression carries them, so
+    the plan it lowers to is bounded by the user's block-size limit, not by the configured default"""
+    bounded_only = True
+    params = {"through": "const", "threshold": "const", "limit": "const"}
+    scope = "200x200 data in row blocks behind map_blocks; rechunk through T / +1 / concatenate / expand_dims; 3 argument pairs"
+
+    def real():
+        return lambda: None
+
+    def call(fn, through, threshold, limit):
+        import numpy as np
+        import dask_array as da
+        a = np.arange(1600.0).reshape(40, 40)
+        x = da.from_array(a, chunks=(1, 40)).map_blocks(lambda b: b + 1, dtype="f8")
+        kw = {"threshold": threshold, "block_size_limit": limit}
+        if through == "T":
+            y, want = x.T.rechunk((1, 40), **kw), (a + 1).T
+        elif through == "plus":
+            y, want = (x + 1).rechunk((40, 1), **kw), a + 2
+        elif through == "concatenate":
+            y, want = da.concatenate([x, x]).rechunk((80, 1), **kw), np.concatenate([a + 1, a + 1])
+        else:
+            y, want = da.expand_dims(x, 0).rechunk((1, 40, 1), **kw), (a + 1)[None]
+        o = y.expr.optimize()
+        nodes = [(type(n).__name__, n.operand("threshold"), n.operand("block_size_limit")) for n in o.walk() if "Rechunk" in type(n).__name__]
+        return nodes, np.asarray(y.compute()), want
+
+    def requires(through, threshold, limit):
+        return True
+
+    def ensures(result, through, threshold, limit):
+        nodes, got, want = result
+        return {"every-rechunk-node-keeps-the-users-planner-arguments": all(t == threshold and l == limit for _, t, l in nodes),
+                "values-unchanged": _same(got, want)}
+
+    def domain(tier, rng):
+        for through in ("T", "plus", "concatenate", "expand_dims"):
+            for threshold, limit in ((None, 1600), (1, 64), (2, None)):
+                yield {"through": through, "threshold": threshold, "limit": limit}
 
 
 @contract("dask_array/_rechunk.py::rechunk", spec="live-siblings", props=["C14"])
